@@ -25,7 +25,7 @@ pub fn judge_enc(ev: &mut Ev, case: &EncCase, out: &EncOut) {
     ev.count_n("contract.encode-calls", out.calls.len() as u64);
     for f in out.fails.iter() { if MINE.contains(&f.0) {
         let msg = if f.0 == FailKind::Panic { f.1.chars().take(60).collect::<String>() } else { String::new() };
-        ev.violation(&format!("{:?}", f.0).to_lowercase(), &format!("encode:{}:{}:{}", case.enc.output_encoding().name(), if case.src16 { "utf16" } else { "utf8" }, msg), format!("{} | {} | calls: {}", f.1, case.describe(), fmt_calls(&out.calls)));
+        ev.violation(&format!("{:?}", f.0).to_lowercase(), &format!("encode:{}:{}:{}", crate::c01::ofam(case.enc), if case.src16 { "utf16" } else { "utf8" }, msg), format!("{} | {} | calls: {}", f.1, case.describe(), fmt_calls(&out.calls)));
     } }
 }
 
@@ -82,7 +82,7 @@ pub fn run(ctx: &Ctx, ev: &mut Ev) {
     // (b) bounded-exhaustive decode histories at the documented minimum capacities (space-check thresholds)
     if ctx.want("decenum") && !tiny {
         let sp = DecSpace { encs: families(), small_alpha: true, maxlen: 3, utf16_extra: 1, boms: vec![Bom::Sniff, Bom::Off], sinks: vec![Sink::U8, Sink::U16, Sink::String], repls: vec![true, false],
-            cap_offsets: vec![vec![0], vec![1], vec![2], vec![3]], last_seps: vec![false, true], stride: if th { 1 } else { 3 }, prefixes: vec![vec![], vec![0xEF], vec![0xEF, 0xBB], vec![0xFE], vec![0xFF]], fills: vec![0xA5], token_streams: (0, 0) };
+            cap_offsets: vec![vec![0], vec![1], vec![2], vec![3]], last_seps: vec![false, true], stride: if th { 1 } else { 3 }, prefixes: vec![vec![], vec![0xEF], vec![0xEF, 0xBB], vec![0xFE], vec![0xFF]], fills: vec![0xA5], token_streams: (3, 2) };
         ev.note(format!("decenum: {}", sp.describe()));
         enum_dec(ctx, ev, &sp, |case, _ng, ev| { let tr = ev.case(); let out = drv.run_dec(case, ev); if tr { println!("TRACE {} | calls: {} | fails: {:?}", case.describe(), fmt_calls(&out.calls), out.fails); } judge_dec(ev, case, &out); ev.nontrivial_enum(); });
     }
@@ -105,7 +105,7 @@ pub fn run(ctx: &Ctx, ev: &mut Ev) {
             if tr { println!("TRACE {} | calls: {} | fails: {:?}", case.describe(), fmt_calls(&out.calls), out.fails); }
             judge_enc(ev, &case, &out);
             if !t.is_empty() { ev.nontrivial_hash(case.hash()); }
-            ev.state(H::new().s(enc.output_encoding().name()).u(src16 as u64).u(9).get(), || format!("enc {} src16={}", enc.output_encoding().name(), src16));
+            ev.state(H::new().s(crate::c01::ofam(enc)).u(src16 as u64).u(9).get(), || format!("enc {} src16={}", crate::c01::ofam(enc), src16));
         }
     }
     if ctx.want("encenum") && !tiny {
